@@ -144,7 +144,7 @@ func (m *Module) enableInlining() {
 		if m.anchors[h] || bad[h] || len(sites[h]) != 1 || len(h.Blocks) == 0 || h.Synthetic != "" || h.Parent() != nil {
 			continue
 		}
-		if token.IsExported(h.Name()) || h.Name() == "init" || h.Name() == "main" {
+		if (token.IsExported(h.Name()) && !methodOfPrivateType(h)) || h.Name() == "init" || h.Name() == "main" {
 			continue
 		}
 		if h.Recover != nil || len(h.FreeVars) > 0 {
@@ -410,4 +410,19 @@ func scanIG(m *Module, fn *ssa.Function, diverging map[*ssa.Function]bool) *IG {
 	g := newIG(m, fn, diverging)
 	m.anchorOff = save
 	return g
+}
+
+// methodOfPrivateType: fn is a method whose receiver type is not exported (an
+// exported method name then names nothing outside the package).
+func methodOfPrivateType(fn *ssa.Function) bool {
+	recv := fn.Signature.Recv()
+	if recv == nil {
+		return false
+	}
+	t := recv.Type()
+	if p, ok := t.(*types.Pointer); ok {
+		t = p.Elem()
+	}
+	n, ok := t.(*types.Named)
+	return ok && !token.IsExported(n.Obj().Name())
 }
